@@ -27,6 +27,7 @@ import (
 	"github.com/sassoftware/relic/v8/internal/signinit"
 	"github.com/sassoftware/relic/v8/internal/zhttp"
 	"github.com/sassoftware/relic/v8/lib/readercounter"
+	"github.com/sassoftware/relic/v8/lib/verifhook"
 	"github.com/sassoftware/relic/v8/lib/x509tools"
 	"github.com/sassoftware/relic/v8/signers"
 )
@@ -94,6 +95,7 @@ func (s *Server) serveSign(rw http.ResponseWriter, request *http.Request) error 
 	if err != nil {
 		return err
 	}
+	verifhook.Emit("SignDone", "rid", filename, "key", keyConf.Name(), "sigtype", mod.Name, "digest", x509tools.HashNames[hash])
 	opts.Audit.Attributes["perf.size.in"] = counter.N
 	opts.Audit.Attributes["perf.size.patch"] = len(blob)
 	if err := signinit.PublishAudit(opts.Audit); err != nil {
@@ -107,6 +109,7 @@ func (s *Server) serveSign(rw http.ResponseWriter, request *http.Request) error 
 	}
 	ev.Msg("signed package")
 	rw.Header().Set("Content-Type", opts.Audit.GetMimeType())
+	verifhook.Emit("ResponseWrite", "rid", filename)
 	_, err = rw.Write(blob)
 	return err
 }
